@@ -3,20 +3,6 @@
    final top-level outs.  Used by the C01/C03 correspondence (cases.v). *)
 From Martian Require Import Lib.Bytes Json.Json Json.Enc Mro.Sem Mro.StageSpec.
 
-(* The latitude the property grants: a disabled or empty mapped call may
-   appear as null, an empty collection or a collection of nulls.  Both sides
-   are normalised by collapsing collections that contain nothing but nulls. *)
-Fixpoint nullify (j : json) : json :=
-  match j with
-  | JArr l =>
-      let l' := map nullify l in
-      if forallb is_null l' then JNull else JArr l'
-  | JObj kvs =>
-      let kvs' := map (fun kv => (fst kv, nullify (snd kv))) kvs in
-      if forallb (fun kv => is_null (snd kv)) kvs' then JNull else JObj kvs'
-  | _ => j
-  end.
-
 Definition norm (j : json) : json := nullify (json_canon j).
 
 (* decimal rendering of small naturals *)
@@ -74,8 +60,9 @@ Record verdict := {
 
 Definition fuel_default : nat := 40.
 
-Definition check_run (P : program) (sp : spec) (seen : list obs) (outs : option json) : verdict :=
-  let r := eval_program P (spec_oracle sp) fuel_default fuel_default in
+Definition check_run_pol (pol : list bytes -> bool) (P : program) (sp : spec)
+    (seen : list obs) (outs : option json) : verdict :=
+  let r := eval_program P (spec_oracle_pol pol sp) fuel_default fuel_default in
   let model := map inv_obs (snd r) in
   let seen' := map (fun o => (fst o, norm (snd o))) seen in
   let (m, e) := ms_diff model seen' in
@@ -91,3 +78,50 @@ Definition run_ok (v : verdict) : bool :=
   | [], [] => v_outs_ok v
   | _, _ => false
   end.
+
+(* The latitude for disabled mapped calls (Sem.o_nulls) is resolved per call:
+   the run is accepted when some assignment, to the calls of the program that
+   are mapped and carry a disabled modifier, of [null] or [collection of
+   nulls] makes the semantics equal to what was observed. *)
+Fixpoint dm_paths (fuel : nat) (P : program) (path : list bytes) (c : call) : list (list bytes) :=
+  match fuel with
+  | O => []
+  | S f =>
+      let here := path ++ [c_id c] in
+      (match c_mapped c, c_disabled c with Some _, Some _ => [here] | _, _ => [] end) ++
+      match assoc_get (c_callee c) (pr_callables P) with
+      | Some (CPipe p) => flat_map (dm_paths f P here) (p_calls p)
+      | _ => []
+      end
+  end.
+
+Fixpoint path_eqb (a b : list bytes) : bool :=
+  match a, b with
+  | [], [] => true
+  | x :: a', y :: b' => bytes_eqb x y && path_eqb a' b'
+  | _, _ => false
+  end.
+
+Fixpoint subsets {A : Type} (l : list A) : list (list A) :=
+  match l with
+  | [] => [[]]
+  | x :: r => let s := subsets r in s ++ map (cons x) s
+  end.
+
+Definition policies (cands : list (list bytes)) : list (list (list bytes)) :=
+  if Nat.leb (List.length cands) 6 then subsets cands
+  else [] :: cands :: map (fun c => [c]) cands.
+
+Definition pol_of (chosen : list (list bytes)) (p : list bytes) : bool :=
+  existsb (path_eqb p) chosen.
+
+Definition check_run (P : program) (sp : spec) (seen : list obs) (outs : option json) : verdict :=
+  let v0 := check_run_pol (fun _ => false) P sp seen outs in
+  if run_ok v0 then v0
+  else
+    match filter run_ok
+            (map (fun ch => check_run_pol (pol_of ch) P sp seen outs)
+                 (policies (dm_paths fuel_default P [] (pr_top P)))) with
+    | v :: _ => v
+    | [] => v0
+    end.
